@@ -70,7 +70,10 @@ def run_save(ctx, n, lead, trail, start, end, midnight, rng, nan_pixels=True):
     qual = np.zeros((n, 7))
     qual[:, 0] = line_numbers
     qual[:, 1:] = (np.arange(n)[:, None] + np.arange(6)[None, :]) % 2
-    t0 = ydm_to_ms(2002, 187, 86400000 - 500 * (midnight + 1)) if midnight is not None else ydm_to_ms(2002, 187, 3600000)
+    # the day of the pass is a fixed function of the case (so that a replay rebuilds it): mid-year, and the turns of years at
+    # which the ISO week-numbering year differs from the calendar year (1 Jan 2010 is a Friday, 31 Dec 2012 a Monday)
+    y_, d_ = [(2002, 187), (2009, 365), (2012, 366), (2010, 1), (2016, 2), (2002, 187)][(n + 3 * lead + 5 * trail + 7 * start + (midnight or 0)) % 6]
+    t0 = ydm_to_ms(y_, d_, 86400000 - 500 * (midnight + 1)) if midnight is not None else ydm_to_ms(y_, d_, 3600000)
     xutcs = (t0 + 500 * np.arange(n)).astype("datetime64[ms]")
     meta = {"midnight_scanline": None if midnight is None else np.int64(midnight), "missing_scanlines": np.array([1, 2]),
             "sun_earth_distance_correction_factor": 0.98}
